@@ -244,3 +244,78 @@ func (g *Gen) subset(ss []string, maxN int) []string {
 	}
 	return r
 }
+
+// arrangedFrames: frames whose row order is EVERY permutation of 4 stored rows - the index covering the
+// whole storage, and with stored rows cut away in front and/or behind (Slice) - plus a sample of the
+// permutations of 5 and 6 rows (all of 5 in the thorough tier). Fast paths that decide "this index is
+// the natural one / contiguous / ascending" from a few of its entries are wrong for some permutation;
+// enumerating them all at the smallest size where such a permutation exists finds it. Columns: I int,
+// F float (one NaN), B bool, S string (one null), E declared enum (one null), X derived enum, P the
+// permutation. fn receives the arranged frame.
+func (g *Gen) arrangedFrames(note string, fn func(f int)) {
+	for _, n := range []int{4, 5, 6} {
+		for _, perm := range permsOf(n) {
+			if n == 5 && !g.thorough() && g.rng.Intn(10) != 0 {
+				continue
+			}
+			if n == 6 && g.rng.Intn(g.pick(60, 6)) != 0 {
+				continue
+			}
+			for variant := 0; variant < 4; variant++ {
+				if variant > 0 && g.rng.Intn(3) != 0 {
+					continue // the full-storage variant always, the others one time in three each
+				}
+				off := variant % 2 * (1 + g.rng.Intn(2))
+				tot := off + n + variant/2
+				iv, pv := make([]int64, tot), make([]int64, tot)
+				fv := make([]string, tot)
+				bv := make([]bool, tot)
+				sv, ev, xv := make([]*BS, tot), make([]*BS, tot), make([]*BS, tot)
+				for i := 0; i < tot; i++ {
+					iv[i], pv[i], fv[i], bv[i] = int64(10*(i+1)), int64(100+i), itoa(i)+".25", i%2 == 0
+					sv[i], ev[i], xv[i] = bsp("s"+itoa(i)), bsp([]string{"lo", "mid", "hi"}[i%3]), bsp("x"+itoa(i%4))
+				}
+				for i, v := range perm {
+					pv[off+i] = int64(v)
+				}
+				fv[off+1], sv[off+2], ev[off+n-1] = "NaN", nil, nil
+				g.begin(note)
+				f := g.do(Step{Op: "New", Recv: -1, HasOrder: true, ColOrder: bsList([]string{"I", "F", "B", "S", "E", "X", "P"}), HasEnums: true,
+					Enums: []EnumDecl{{Name: toBS("E"), Vals: bsList([]string{"hi", "mid", "lo"})}, {Name: toBS("X"), Vals: nil}},
+					Data: []ColData{{Name: toBS("I"), Kind: "int", Ints: iv}, {Name: toBS("F"), Kind: "float", Floats: fv}, {Name: toBS("B"), Kind: "bool", Bools: bv},
+						{Name: toBS("S"), Kind: "string", Strs: sv}, {Name: toBS("E"), Kind: "string", Strs: ev}, {Name: toBS("X"), Kind: "string", Strs: xv},
+						{Name: toBS("P"), Kind: "int", Ints: pv}}})
+				if tot != n {
+					f = g.do(Step{Op: "Slice", Recv: f, A: off, B: off + n})
+				}
+				f = g.do(Step{Op: "Sort", Recv: f, Orders: []Order{{Col: toBS("P")}}})
+				if g.frame(f).Err == nil {
+					fn(f)
+				}
+				g.end()
+			}
+		}
+	}
+}
+
+// leafCatalogue: one leaf of every comparator family for every column type of the arrangedFrames schema
+func leafCatalogue() []Clause {
+	lf := func(col, cmp string, arg *Val) Clause { return Clause{K: "leaf", Col: toBS(col), CmpK: "str", Cmp: cmp, Arg: arg} }
+	fn := func(col, k, sym string, arg *Val) Clause { return Clause{K: "leaf", Col: toBS(col), CmpK: k, Cmp: sym, Arg: arg} }
+	iv := func(i int64) *Val { return &Val{T: "int", I: i} }
+	sv := func(s string) *Val { return &Val{T: "string", S: toBS(s)} }
+	col := func(c string) *Val { return &Val{T: "col", S: toBS(c)} }
+	return []Clause{
+		lf("I", "=", iv(20)), lf("I", "<", iv(30)), lf("I", ">=", iv(30)), lf("I", "!=", iv(20)),
+		lf("I", "in", &Val{T: "ints", L: []Val{{T: "int", I: 20}, {T: "int", I: 40}}}), lf("I", "<", &Val{T: "float", F: "25.5"}),
+		lf("I", "<", col("P")), lf("I", ">", col("F")), fn("I", "fn1", "oddI", nil), fn("I", "fn2", "ltII", col("P")), lf("I", "any_bits", iv(4)),
+		lf("F", "<", &Val{T: "float", F: "2"}), lf("F", ">=", &Val{T: "float", F: "2.25"}), lf("F", "isnull", nil), lf("F", "isnotnull", nil),
+		lf("F", "<", col("I")), fn("F", "fn1", "isNegF", nil), fn("F", "fn2", "ltFF", col("F")),
+		lf("B", "=", &Val{T: "bool", B: true}), lf("B", "!=", col("B")), fn("B", "fn1", "NotB", nil),
+		lf("S", "=", sv("s1")), lf("S", "<", sv("s2")), lf("S", ">", sv("s1")), lf("S", "isnull", nil), lf("S", "like", sv("s%")), lf("S", "ilike", sv("%S1%")),
+		lf("S", "in", &Val{T: "strs", L: []Val{{T: "string", S: toBS("s0")}, {T: "string", S: toBS("s3")}}}), lf("S", "<", col("S")), fn("S", "fn1", "isNilS", nil),
+		lf("E", "=", sv("mid")), lf("E", "<", sv("lo")), lf("E", ">=", sv("mid")), lf("E", "isnull", nil), lf("E", "like", sv("%i%")),
+		lf("E", "in", &Val{T: "strs", L: []Val{{T: "string", S: toBS("hi")}}}), lf("E", "<=", col("E")), lf("E", "!=", sv("hi")),
+		lf("X", "=", sv("x1")), lf("X", "<", sv("x2")), lf("X", "ilike", sv("X%")), lf("X", "isnotnull", nil), fn("X", "fn2", "prefixSS", col("X")),
+	}
+}
